@@ -214,9 +214,6 @@ theorem merged_set_str {p : J} (hw : wf p = true) (t : J) (q : Path) (s : String
 
 /-! ## the ReplicaSet-of-Deployment bit only looks at `kind` and `metadata.ownerReferences` -/
 
-def MarkStable (p : J) : Prop :=
-  probe p ["kind"] = .untouched ∧ probe p ["metadata", "ownerReferences"] = .untouched
-
 theorem get?_eq_resolve (j : J) (k : String) : j.get? k = resolve? j [k] := by
   cases j with
   | obj kvs => simp only [get?, resolve?]; cases lookup k kvs <;> simp
@@ -297,9 +294,6 @@ theorem resolve_append (f : Path) : ∀ (j : J) (k : String),
 theorem resolve_single (c : J) (k : String) : resolve? c [k] = lookup k (kvsOf c) := by
   rw [resolve_cons]
   cases lookup k (kvsOf c) <;> simp [resolve_nil]
-
-/-- a flat record: unique keys, no nested objects (the shape of `ProgressRecord`) -/
-def FlatRec (r : Rec) : Prop := wfKvs r = true ∧ ∀ kv ∈ r, kv.2.isObj = false
 
 theorem wf_of_flat {r : Rec} (h : FlatRec r) : wf (obj r) = true := by rw [wf_obj]; exact h.1
 
